@@ -15,7 +15,8 @@ vars == <<s, n>>
 
 NumPs == {<<>>, <<0>>, <<1>>, <<2>>, <<Cols + 1>>}
 Ops ==
-  {[op |-> o] : o \in {"CR", "LF", "RI", "NEL", "DECSC", "DECRC", "ALTON", "ALTOFF"}}
+  {[op |-> o] : o \in {"CR", "LF", "RI", "NEL", "DECSC", "DECRC", "ALTON", "ALTOFF",
+                       "ALT47ON", "ALT47OFF", "ALT1047OFF", "RC1048"}}
   \cup {[op |-> "PRINT", g |-> p[1], w |-> p[2]] : p \in {<<1, 1>>, <<2, 2>>}}
   \cup {[op |-> o, ps |-> ps] : o \in {"CUU", "CUD", "CUF", "CUB", "CNL", "CPL", "CHA", "VPA", "ECH", "ICH",
                                        "DCH", "IL", "DL", "SU", "SD"}, ps \in NumPs}
@@ -24,7 +25,7 @@ Ops ==
                                             <<Rows + 1, Cols + 1>>, <<-1, 2>>}}
   \cup {[op |-> "DECSTBM", ps |-> ps] : ps \in {<<>>, <<0, 0>>, <<1, 2>>, <<2, Rows>>, <<2, 2>>,
                                                 <<1, Rows + 1>>, <<2>>, <<Rows, 1>>}}
-  \cup {[op |-> "SGR", sgr |-> x] : x \in {<<>>, <<<<41>>>>, <<<<7>>>>}}
+  \cup {[op |-> "SGR", sgr |-> x] : x \in {<<>>, <<<<41>>>>, <<<<7>>>>, <<<<21>>>>}}
 
 (* every way of resolving what an outcome leaves open *)
 Resolve(o) == {t \in {[o.s EXCEPT !.c = c, !.pw = p] : c \in o.cs, p \in (IF o.pwf THEN {o.s.pw, FALSE} ELSE {o.s.pw})}
@@ -70,6 +71,21 @@ ThmSaveRestore ==
        LET t == DECRC(CUP(DECSC(q), pr, pc)) IN t.r = q.r /\ t.c = q.c /\ t.pen = q.pen /\ t.grid = q.grid
   /\ ~q.alt => LET t == AltOff(AltOn(q)) IN t.grid = q.grid /\ t.r = q.r /\ t.c = q.c /\ t.pen = q.pen /\ ~t.alt
   /\ AltOn(q).grid = BlankGrid(Rows, Cols, q.pen.bg) /\ AltOn(q).r = q.r /\ AltOn(q).c = q.c
+ThmAltBuffers ==   \* modes 47 / 1047: only the displayed buffer changes; a buffer that is not displayed keeps its contents
+  /\ ~q.alt => /\ Alt47Off(Alt47On(q)) = q /\ Alt47Off(q) = q /\ Alt1047Off(q) = q
+               /\ LET a == Alt47On(q) IN
+                    /\ a.alt /\ a.grid = q.other /\ a.r = q.r /\ a.c = q.c /\ a.pen = q.pen /\ a.saved = q.saved
+                    /\ Alt47On(a) = a
+                    /\ Alt47On(Alt47Off(PrintG(a, 1, 1))).grid = PrintG(a, 1, 1).grid
+                    /\ Alt1047Off(a).grid = q.grid
+                    /\ Alt47On(Alt1047Off(PrintG(a, 1, 1))).grid = BlankGrid(Rows, Cols, q.pen.bg)
+                    /\ AltOn(a).grid = BlankGrid(Rows, Cols, q.pen.bg)         \* 1049 clears even when already there
+                    /\ AltOff(a).grid = q.grid /\ ~AltOff(a).alt
+ThmSgr21 ==
+  /\ ApplyVT(q.pen, <<<<21>>>>).us = 2 /\ ApplyVT(ApplyVT(q.pen, <<<<21>>>>), <<<<24>>>>).us = 0
+  /\ ApplyVT(q.pen, <<<<21>>>>) = Apply(q.pen, <<<<4, 2>>>>)
+  /\ ApplyVT(q.pen, <<<<38>>, <<5>>, <<21>>>>) = Apply(q.pen, <<<<38>>, <<5>>, <<21>>>>)   \* 21 as a colour index is not a rendition
+  /\ \A x \in {<<>>, <<<<41>>>>, <<<<7>>>>, <<<<1>>, <<4, 3>>, <<0>>>>} : ApplyVT(q.pen, x) = Apply(q.pen, x)
 ThmPrint ==
   /\ q.c < Cols => LET t == PrintG(q, 1, 1) IN
                      t.c = q.c + 1 /\ t.r = q.r /\ ~t.pw /\ t.grid[q.r][q.c] = Glyph(1, 1, q.pen, 0)
@@ -84,5 +100,5 @@ ThmOutside ==   \* nothing outside the scrolling region moves when the region sc
   \A k \in Ks : \A y \in 1..Rows : (y < q.top \/ y > q.bot) =>
      /\ SU(q, k).grid[y] = q.grid[y] /\ SD(q, k).grid[y] = q.grid[y]
      /\ IL(q, k).grid[y] = q.grid[y] /\ DL(q, k).grid[y] = q.grid[y]
-Theorems == ThmIter /\ ThmIndex /\ ThmErase /\ ThmSaveRestore /\ ThmPrint /\ ThmRegion /\ ThmOutside
+Theorems == ThmIter /\ ThmIndex /\ ThmErase /\ ThmSaveRestore /\ ThmAltBuffers /\ ThmSgr21 /\ ThmPrint /\ ThmRegion /\ ThmOutside
 =============================================================================
